@@ -187,6 +187,14 @@ func (g *Gen) DrawEnv(txs []txgen.Tx) sim.BlockSpec {
 	for _, tx := range txs {
 		spec.Txs = append(spec.Txs, tx.Bytes)
 	}
+	// the rest of the mempool: transactions the node checks around this block without executing them in it
+	// (a replica with ambient checks on runs them through CheckTx after EndBlock, after Commit and in between)
+	if g.Uniform(3, "pool") == 0 {
+		n := 1 + g.Uniform(2, "pool-n")
+		for i := 0; i < n; i++ {
+			spec.Pool = append(spec.Pool, g.Draw().Bytes)
+		}
+	}
 	// nodes that went down: absent from every commit from some height on (tendermint drops the ones that would
 	// take the signers to 2/3 or less)
 	if !g.downDrawn {
